@@ -11,6 +11,9 @@ Proof. intro H. inversion H. split; reflexivity. Qed.
 Lemma cons2_inj {A} (a b a' b' : A) l l' : a :: b :: l = a' :: b' :: l' -> a = a' /\ b = b' /\ l = l'.
 Proof. intro H. inversion H. repeat split; reflexivity. Qed.
 
+Lemma ok_pair_inj_pair {A B} (a a' : A) (b b' : B) : (a, b) = (a', b') -> a = a' /\ b = b'.
+Proof. intro H. inversion H. split; reflexivity. Qed.
+
 Lemma ok_inj {A} (a a' : A) : Ok a = Ok a' -> a = a'.
 Proof. intro H. inversion H. reflexivity. Qed.
 
@@ -549,42 +552,47 @@ Lemma remove_octet_string_tlv body r : blen body < LMAX ->
   remove_octet_string (tlv x04 body ++ r) = Ok (body, r).
 Proof.
   intro H. destruct (tlv_parse x04 body r H) as [A [B [C D]]].
-  unfold remove_octet_string. rewrite tlv_app. rewrite tlv_app in A, B, C.
+  unfold remove_octet_string. rewrite tlv_app. rewrite tlv_app in A, B, C, D.
   change (negb (byte_eqb x04 x04)) with false. cbv iota.
-  rewrite A. cbn [bind]. rewrite B, C. reflexivity.
+  rewrite A. cbn [bind]. rewrite D.
+  destruct (_ <? _) eqn:E; [apply N.ltb_lt in E; lia|]. rewrite B, C. reflexivity.
 Qed.
 
 Lemma remove_octet_string_encode s r : blen s < LMAX ->
   remove_octet_string (encode_octet_string s ++ r) = Ok (s, r).
 Proof. intro H. rewrite encode_octet_string_tlv. apply remove_octet_string_tlv, H. Qed.
 
-(* what is accepted: a header followed by AT MOST len bytes (no length test in the code) *)
-Lemma remove_octet_string_inv s body r : remove_octet_string s = Ok (body, r) ->
-  exists len r', len < LMAX /\ s = x04 :: encode_length len ++ r' /\ body = takeN len r' /\ r = dropN len r'.
+Lemma remove_octet_string_exact s body r : remove_octet_string s = Ok (body, r) ->
+  blen body < LMAX /\ s = encode_octet_string body ++ r.
 Proof.
   destruct s as [|b0 s']; [discriminate|]. unfold remove_octet_string.
   destruct (byte_eqb b0 x04) eqn:E0; [|discriminate]. apply byte_eqb_eq in E0. subst b0.
   cbn [negb]. rewrite dropN_1_cons.
   destruct (read_length s') as [[len ll]|e] eqn:ER; [|discriminate]. cbn [bind].
+  destruct (_ <? _) eqn:EL; [discriminate|]. apply N.ltb_ge in EL.
   intro H. apply ok_pair_inj in H. destruct H as [<- <-].
-  destruct (tlv_invert_nocheck x04 s' len ll ER) as [r' [Hs [Hm [Hll [A B]]]]].
-  exists len, r'. split; [exact Hm|]. split; [exact Hs|]. split; assumption.
+  destruct (tlv_invert x04 s' len ll ER EL) as [Hb [Hm Hs]].
+  split; [rewrite Hb; exact Hm|]. rewrite encode_octet_string_tlv. exact Hs.
 Qed.
 
-Lemma remove_octet_string_err s e : remove_octet_string s = Err e -> e = EUnexpectedDER \/ e = EIndex.
+Lemma remove_octet_string_err s e : remove_octet_string s = Err e -> e = EUnexpectedDER.
 Proof.
-  destruct s as [|b0 s']; [intro H; inversion H; right; reflexivity|]. unfold remove_octet_string.
-  destruct (negb (byte_eqb b0 x04)); [intro H; inversion H; left; reflexivity|].
-  destruct (read_length (dropN 1 (b0 :: s'))) as [[len ll]|e'] eqn:ER; cbn [bind]; [discriminate|].
-  intro H. apply err_inj in H. subst. left. eapply read_length_err; eassumption.
+  destruct s as [|b0 s']; [intro H; inversion H; reflexivity|]. unfold remove_octet_string.
+  destruct (negb (byte_eqb b0 x04)); [intro H; inversion H; reflexivity|].
+  destruct (read_length (dropN 1 (b0 :: s'))) as [[len ll]|e'] eqn:ER; cbn [bind].
+  - destruct (_ <? _); [intro H; inversion H; reflexivity | discriminate].
+  - intro H. apply err_inj in H. subst. eapply read_length_err; eassumption.
 Qed.
 
-Lemma remove_octet_string_nonempty_err b s e : remove_octet_string (b :: s) = Err e -> e = EUnexpectedDER.
+Lemma remove_octet_string_prefix body k : blen body < LMAX -> (k < length (tlv x04 body))%nat ->
+  remove_octet_string (firstn k (tlv x04 body)) = Err EUnexpectedDER.
 Proof.
-  unfold remove_octet_string.
-  destruct (negb (byte_eqb b x04)); [intro H; inversion H; reflexivity|].
-  destruct (read_length (dropN 1 (b :: s))) as [[len ll]|e'] eqn:ER; cbn [bind]; [discriminate|].
-  intro H. apply err_inj in H. subst. eapply read_length_err; eassumption.
+  intros H Hk. destruct (tlv_prefix x04 body k H Hk) as [E|[q [E [R|[ll [R B]]]]]]; rewrite E.
+  - reflexivity.
+  - unfold remove_octet_string. change (negb (byte_eqb x04 x04)) with false. cbv iota.
+    rewrite dropN_1_cons, R. reflexivity.
+  - unfold remove_octet_string. change (negb (byte_eqb x04 x04)) with false. cbv iota.
+    rewrite dropN_1_cons, R. cbn [bind]. apply N.ltb_lt in B. rewrite B. reflexivity.
 Qed.
 
 (* ---- constructed ---------------------------------------------------------------------------- *)
@@ -606,24 +614,66 @@ Proof.
   apply N.eqb_eq in A, B. split; assumption.
 Qed.
 
+(* a byte whose top three bits are 101 is 0xA0 + its low five bits *)
+Lemma land_e0_inv n : n < 256 -> N.land n 0xE0 = 0xA0 -> N.land n 0x1F <= 31 /\ n = 0xA0 + N.land n 0x1F.
+Proof.
+  intros H E.
+  assert (S : forall x, x < 256 -> (negb (N.land x 0xE0 =? 0xA0) || ((N.land x 0x1F <=? 31) && (x =? 0xA0 + N.land x 0x1F))) = true).
+  { apply (sweep (fun x => negb (N.land x 0xE0 =? 0xA0) || ((N.land x 0x1F <=? 31) && (x =? 0xA0 + N.land x 0x1F)))). vm_compute. reflexivity. }
+  specialize (S n H). apply N.eqb_eq in E. rewrite E in S. cbn [negb orb] in S.
+  apply andb_true_iff in S. destruct S as [A B]. apply N.leb_le in A. apply N.eqb_eq in B. split; assumption.
+Qed.
+
 Lemma remove_constructed_tlv tag body r : tag <= 31 -> blen body < LMAX ->
   remove_constructed (tlv (n2b (0xA0 + tag)) body ++ r) = Ok (tag, body, r).
 Proof.
   intros Ht H. destruct (tlv_parse (n2b (0xA0 + tag)) body r H) as [A [B [C D]]].
-  unfold remove_constructed. rewrite tlv_app. rewrite tlv_app in A, B, C.
+  unfold remove_constructed. rewrite tlv_app. rewrite tlv_app in A, B, C, D.
   rewrite idx_0_cons. cbn [bind]. rewrite b2n_n2b_small by lia.
   destruct (land_e0_tag tag Ht) as [L1 L2]. rewrite L1, L2.
   change (negb (0xA0 =? 0xA0)) with false. cbv iota.
-  rewrite A. cbn [bind]. rewrite B, C. reflexivity.
+  rewrite A. cbn [bind]. rewrite D.
+  destruct (_ <? _) eqn:E; [apply N.ltb_lt in E; lia|]. rewrite B, C. reflexivity.
 Qed.
 
-Lemma remove_constructed_err s e : remove_constructed s = Err e -> e = EUnexpectedDER \/ e = EIndex.
+Lemma remove_constructed_exact s tag body r : remove_constructed s = Ok (tag, body, r) ->
+  tag <= 31 /\ blen body < LMAX /\ s = tlv (n2b (0xA0 + tag)) body ++ r.
 Proof.
-  destruct s as [|b0 s']; [intro H; inversion H; right; reflexivity|]. unfold remove_constructed.
+  destruct s as [|b0 s']; [discriminate|]. unfold remove_constructed.
   rewrite idx_0_cons. cbn [bind].
-  destruct (negb (N.land (b2n b0) 224 =? 160)); [intro H; inversion H; left; reflexivity|].
-  destruct (read_length (dropN 1 (b0 :: s'))) as [[len ll]|e'] eqn:ER; cbn [bind]; [discriminate|].
-  intro H. apply err_inj in H. subst. left. eapply read_length_err; eassumption.
+  destruct (N.land (b2n b0) 224 =? 160) eqn:E0; [|discriminate]. apply N.eqb_eq in E0. cbn [negb].
+  rewrite dropN_1_cons.
+  destruct (read_length s') as [[len ll]|e] eqn:ER; [|discriminate]. cbn [bind].
+  destruct (_ <? _) eqn:EL; [discriminate|]. apply N.ltb_ge in EL.
+  intro H. apply ok_pair_inj in H. destruct H as [H <-]. apply ok_pair_inj_pair in H. destruct H as [<- <-].
+  destruct (tlv_invert b0 s' len ll ER EL) as [Hb [Hm Hs]].
+  destruct (land_e0_inv (b2n b0) (b2n_lt b0) E0) as [Ht Hv].
+  split; [exact Ht|]. split; [rewrite Hb; exact Hm|].
+  rewrite <- Hv, n2b_b2n. exact Hs.
+Qed.
+
+Lemma remove_constructed_err s e : remove_constructed s = Err e -> e = EUnexpectedDER.
+Proof.
+  destruct s as [|b0 s']; [intro H; inversion H; reflexivity|]. unfold remove_constructed.
+  rewrite idx_0_cons. cbn [bind].
+  destruct (negb (N.land (b2n b0) 224 =? 160)); [intro H; inversion H; reflexivity|].
+  destruct (read_length (dropN 1 (b0 :: s'))) as [[len ll]|e'] eqn:ER; cbn [bind].
+  - destruct (_ <? _); [intro H; inversion H; reflexivity | discriminate].
+  - intro H. apply err_inj in H. subst. eapply read_length_err; eassumption.
+Qed.
+
+Lemma remove_constructed_prefix tag body k : tag <= 31 -> blen body < LMAX ->
+  (k < length (tlv (n2b (0xA0 + tag)) body))%nat ->
+  remove_constructed (firstn k (tlv (n2b (0xA0 + tag)) body)) = Err EUnexpectedDER.
+Proof.
+  intros Ht H Hk. destruct (land_e0_tag tag Ht) as [L1 _].
+  destruct (tlv_prefix (n2b (0xA0 + tag)) body k H Hk) as [E|[q [E [R|[ll [R B]]]]]]; rewrite E.
+  - reflexivity.
+  - unfold remove_constructed. rewrite idx_0_cons. cbn [bind]. rewrite b2n_n2b_small by lia. rewrite L1.
+    change (negb (0xA0 =? 0xA0)) with false. cbv iota. rewrite dropN_1_cons, R. reflexivity.
+  - unfold remove_constructed. rewrite idx_0_cons. cbn [bind]. rewrite b2n_n2b_small by lia. rewrite L1.
+    change (negb (0xA0 =? 0xA0)) with false. cbv iota. rewrite dropN_1_cons, R. cbn [bind].
+    apply N.ltb_lt in B. rewrite B. reflexivity.
 Qed.
 
 (* ---- integers ---------------------------------------------------------------------------------- *)
@@ -1171,10 +1221,11 @@ Proof.
   intros HE HL. destruct (encode_bitstring_int s u enc HE) as [Hu [-> Hpad]].
   assert (HB : blen (n2b u :: s) < LMAX) by (rewrite blen_cons; exact HL).
   destruct (tlv_parse x03 (n2b u :: s) r HB) as [A [B [C D]]].
-  unfold remove_bitstring. rewrite tlv_app. rewrite tlv_app in A, B, C.
+  unfold remove_bitstring. rewrite tlv_app. rewrite tlv_app in A, B, C, D.
   change (negb (byte_eqb x03 x03)) with false. cbv iota.
   rewrite A. cbn [bind].
   destruct (blen (n2b u :: s) =? 0) eqn:E; [apply N.eqb_eq in E; rewrite blen_cons in E; lia|]. clear E.
+  rewrite D. destruct (_ <? _) eqn:E; [apply N.ltb_lt in E; lia|]. clear E.
   rewrite B, C. rewrite idx_0_cons. cbn [bind]. rewrite b2n_n2b_small by lia.
   destruct (7 <? u) eqn:E; [apply N.ltb_lt in E; lia|]. clear E.
   rewrite N.eqb_refl. cbn [bind]. rewrite dropN_1_cons.
@@ -1194,42 +1245,120 @@ Proof.
   apply (f_equal (@rev byte)) in E. rewrite rev_involutive in E. exact E.
 Qed.
 
-Lemma remove_bitstring_err s m e : remove_bitstring s m = Err e -> e = EUnexpectedDER \/ e = EIndex.
+(* the part of remove_bitstring after the header, on a body that is known to be non-empty *)
+Definition bs_tail (body rest : bytes) (expect : bs_mode) : result (bytes * option N * bytes) :=
+  match expect with
+  | BsLegacy => Ok (body, None, rest)
+  | _ =>
+    let* unused := idx body 0 in
+    if 7 <? unused then Err EUnexpectedDER else
+    let* _ := match expect with
+              | BsInt e => if e =? unused then Ok tt else Err EUnexpectedDER
+              | _ => Ok tt
+              end in
+    let body := dropN 1 body in
+    let* _ :=
+      if unused =? 0 then Ok tt else
+      match body with
+      | [] => Err EUnexpectedDER
+      | _ => let* last := idx_last body in
+             if N.land last (2 ^ unused - 1) =? 0 then Ok tt else Err EUnexpectedDER
+      end in
+    Ok (body, match expect with BsNone => Some unused | _ => None end, rest)
+  end.
+
+Lemma bs_tail_err c t rest m e : bs_tail (c :: t) rest m = Err e -> e = EUnexpectedDER.
 Proof.
-  destruct s as [|b0 s']; [intro H; inversion H; left; reflexivity|]. unfold remove_bitstring.
-  destruct (negb (byte_eqb b0 x03)); [intro H; inversion H; left; reflexivity|].
-  destruct (read_length (dropN 1 (b0 :: s'))) as [[len ll]|e'] eqn:ER; cbn [bind];
-    [|intro H; apply err_inj in H; subst; left; eapply read_length_err; eassumption].
-  destruct (len =? 0); [intro H; inversion H; left; reflexivity|].
-  set (body := slice (1 + ll) (1 + ll + len) (b0 :: s')).
-  assert (Core : forall (chk : N -> result unit) (tag : N -> option N),
-     (forall u e0, chk u = Err e0 -> e0 = EUnexpectedDER) ->
-     (let* unused := idx body 0 in
-      if 7 <? unused then Err EUnexpectedDER else
-      let* _ := chk unused in
-      let body0 := dropN 1 body in
-      let* _ := (if unused =? 0 then Ok tt else
-                 match body0 with
-                 | [] => Err EUnexpectedDER
-                 | _ => let* last := idx_last body0 in
-                        if N.land last (2 ^ unused - 1) =? 0 then Ok tt else Err EUnexpectedDER
-                 end) in
-      Ok (body0, tag unused, dropN (1 + ll + len) (b0 :: s'))) = Err e ->
-     e = EUnexpectedDER \/ e = EIndex).
-  { intros chk tag Hchk. destruct body as [|c t]; [intro H; inversion H; right; reflexivity|].
-    rewrite idx_0_cons. cbn [bind].
-    destruct (7 <? b2n c); [intro H; inversion H; left; reflexivity|].
-    destruct (chk (b2n c)) as [[]|e0] eqn:EC; cbn [bind];
-      [|intro H; apply err_inj in H; subst; left; eapply Hchk; eassumption].
-    cbv zeta. destruct (b2n c =? 0); cbn [bind]; [discriminate|].
-    destruct (dropN 1 (c :: t)) as [|d t'] eqn:ED; [intro H; inversion H; left; reflexivity|].
+  unfold bs_tail. destruct m as [| |ex]; [discriminate| |].
+  - rewrite idx_0_cons. cbn [bind]. destruct (7 <? b2n c); [intro H; inversion H; reflexivity|].
+    destruct (b2n c =? 0); cbn [bind]; [discriminate|].
+    destruct (dropN 1 (c :: t)) as [|d t'] eqn:ED; [intro H; inversion H; reflexivity|].
     destruct (idx_last (d :: t')) as [last|e0] eqn:EL; cbn [bind].
-    - destruct (N.land last (2 ^ b2n c - 1) =? 0); cbn [bind]; [discriminate|].
-      intro H; inversion H; left; reflexivity.
-    - apply idx_last_err in EL. discriminate. }
-  destruct m as [| |ex].
-  - discriminate.
-  - apply (Core (fun _ => Ok tt) (fun u => Some u)). intros; discriminate.
-  - apply (Core (fun u => if ex =? u then Ok tt else Err EUnexpectedDER) (fun _ => None)).
-    intros u e0. destruct (ex =? u); [discriminate | intro H; inversion H; reflexivity].
+    + destruct (N.land last (2 ^ b2n c - 1) =? 0); cbn [bind]; [discriminate | intro H; inversion H; reflexivity].
+    + apply idx_last_err in EL. discriminate.
+  - rewrite idx_0_cons. cbn [bind]. destruct (7 <? b2n c); [intro H; inversion H; reflexivity|].
+    destruct (ex =? b2n c); cbn [bind]; [|intro H; inversion H; reflexivity].
+    destruct (b2n c =? 0); cbn [bind]; [discriminate|].
+    destruct (dropN 1 (c :: t)) as [|d t'] eqn:ED; [intro H; inversion H; reflexivity|].
+    destruct (idx_last (d :: t')) as [last|e0] eqn:EL; cbn [bind].
+    + destruct (N.land last (2 ^ b2n c - 1) =? 0); cbn [bind]; [discriminate | intro H; inversion H; reflexivity].
+    + apply idx_last_err in EL. discriminate.
 Qed.
+
+Lemma remove_bitstring_unfold b0 s' m :
+  remove_bitstring (b0 :: s') m =
+  if negb (byte_eqb b0 x03) then Err EUnexpectedDER else
+  let* (len, llen) := read_length (dropN 1 (b0 :: s')) in
+  if len =? 0 then Err EUnexpectedDER else
+  if blen (b0 :: s') <? len + 1 + llen then Err EUnexpectedDER else
+  bs_tail (slice (1 + llen) (1 + llen + len) (b0 :: s')) (dropN (1 + llen + len) (b0 :: s')) m.
+Proof.
+  unfold remove_bitstring, bs_tail. destruct (negb (byte_eqb b0 x03)); [reflexivity|].
+  destruct (read_length (dropN 1 (b0 :: s'))) as [[len ll]|e]; [|reflexivity]. cbn [bind].
+  destruct (len =? 0); [reflexivity|]. destruct (_ <? _); [reflexivity|]. destruct m; reflexivity.
+Qed.
+
+Lemma remove_bitstring_err s m e : remove_bitstring s m = Err e -> e = EUnexpectedDER.
+Proof.
+  destruct s as [|b0 s']; [intro H; inversion H; reflexivity|]. rewrite remove_bitstring_unfold.
+  destruct (negb (byte_eqb b0 x03)); [intro H; inversion H; reflexivity|].
+  rewrite dropN_1_cons.
+  destruct (read_length s') as [[len ll]|e'] eqn:ER; cbn [bind];
+    [|intro H; apply err_inj in H; subst; eapply read_length_err; eassumption].
+  destruct (len =? 0) eqn:E0; [intro H; inversion H; reflexivity|]. apply N.eqb_neq in E0.
+  destruct (_ <? _) eqn:EL; [intro H; inversion H; reflexivity|]. apply N.ltb_ge in EL.
+  destruct (tlv_invert b0 s' len ll ER EL) as [Hb [Hm Hs]].
+  destruct (slice (1 + ll) (1 + ll + len) (b0 :: s')) as [|c t];
+    [change (blen (@nil byte)) with 0 in Hb; lia|].
+  apply bs_tail_err.
+Qed.
+
+(* exactness (as the key decoders call it: expect_unused = an integer) *)
+Lemma remove_bitstring_exact s u body r : remove_bitstring s (BsInt u) = Ok (body, None, r) ->
+  exists enc, encode_bitstring body (BsInt u) = Ok enc /\ s = enc ++ r.
+Proof.
+  destruct s as [|b0 s']; [discriminate|]. rewrite remove_bitstring_unfold.
+  destruct (byte_eqb b0 x03) eqn:E0; [|discriminate]. apply byte_eqb_eq in E0. subst b0. cbn [negb].
+  rewrite dropN_1_cons.
+  destruct (read_length s') as [[len ll]|e'] eqn:ER; [|discriminate]. cbn [bind].
+  destruct (len =? 0) eqn:E0; [discriminate|]. apply N.eqb_neq in E0.
+  destruct (_ <? _) eqn:EL; [discriminate|]. apply N.ltb_ge in EL.
+  destruct (tlv_invert x03 s' len ll ER EL) as [Hb [Hm Hs]].
+  set (bd := slice (1 + ll) (1 + ll + len) (x03 :: s')) in *.
+  set (rst := dropN (1 + ll + len) (x03 :: s')) in *.
+  destruct bd as [|c t] eqn:Ebd; [change (blen (@nil byte)) with 0 in Hb; lia|].
+  unfold bs_tail. rewrite idx_0_cons. cbn [bind].
+  destruct (7 <? b2n c) eqn:E7; [discriminate|]. apply N.ltb_ge in E7.
+  destruct (u =? b2n c) eqn:Eu; [|discriminate]. apply N.eqb_eq in Eu. cbn [bind].
+  rewrite dropN_1_cons.
+  assert (Hc : c = n2b u) by (rewrite Eu; symmetry; apply n2b_b2n).
+  assert (Shape : x03 :: s' = tlv x03 (n2b u :: t) ++ rst) by (rewrite <- Hc; exact Hs).
+  assert (Enc0 : [x03] ++ encode_length (blen t + 1) ++ [n2b u] ++ t = tlv x03 (n2b u :: t)).
+  { unfold tlv. cbn [app]. rewrite blen_cons, (N.add_comm 1). reflexivity. }
+  unfold encode_bitstring. rewrite <- Eu in E7.
+  destruct (7 <? u) eqn:E7'; [apply N.ltb_lt in E7'; lia|].
+  rewrite <- Eu. destruct (u =? 0) eqn:Ez; cbn [bind].
+  - intro H. apply ok_pair_inj in H. destruct H as [H <-]. apply ok_pair_inj_pair in H. destruct H as [<- _].
+    eexists. split; [reflexivity|]. rewrite Enc0. exact Shape.
+  - destruct t as [|d t'] eqn:Et; [discriminate|]. rewrite <- Et in *.
+    destruct (idx_last t) as [last|e0] eqn:EL2; [|discriminate]. cbn [bind].
+    destruct (N.land last (2 ^ u - 1) =? 0) eqn:EM; [|discriminate]. cbn [bind].
+    intro H. apply ok_pair_inj in H. destruct H as [H <-]. apply ok_pair_inj_pair in H. destruct H as [<- _].
+    rewrite Et. rewrite <- Et. rewrite EL2. cbn [bind]. rewrite EM. cbn [bind].
+    eexists. split; [reflexivity|]. rewrite Enc0. exact Shape.
+Qed.
+
+Lemma remove_bitstring_prefix body m k : blen body < LMAX -> (k < length (tlv x03 body))%nat ->
+  remove_bitstring (firstn k (tlv x03 body)) m = Err EUnexpectedDER.
+Proof.
+  intros H Hk. destruct (tlv_prefix x03 body k H Hk) as [E|[q [E [R|[ll [R B]]]]]]; rewrite E.
+  - reflexivity.
+  - rewrite remove_bitstring_unfold. change (negb (byte_eqb x03 x03)) with false. cbv iota.
+    rewrite dropN_1_cons, R. reflexivity.
+  - rewrite remove_bitstring_unfold. change (negb (byte_eqb x03 x03)) with false. cbv iota.
+    rewrite dropN_1_cons, R. cbn [bind]. destruct (blen body =? 0); [reflexivity|].
+    apply N.ltb_lt in B. rewrite B. reflexivity.
+Qed.
+
+Lemma read_number_err s e : read_number s = Err e -> e = EUnexpectedDER.
+Proof. destruct s as [|b t]; [intro H; inversion H; reflexivity | apply read_number_err_cons]. Qed.
